@@ -124,6 +124,12 @@ func (r *Run) Discharge() {
 		return
 	}
 	qs := make([]*smt.Query, len(obs))
+	if d := os.Getenv("VERIF_DUMP"); d != "" {
+		os.MkdirAll(d, 0o755)
+		for _, ob := range obs {
+			os.WriteFile(filepath.Join(d, strings.NewReplacer("/", "_", "[", "_", "]", "_", " ", "_").Replace(ob.Name)+".smt2"), []byte(ob.Script+"\n(check-sat)\n"), 0o644)
+		}
+	}
 	for i, ob := range obs {
 		to := ob.TO
 		if to == 0 {
